@@ -58,13 +58,30 @@ def space_record(rec_id, kind, name, space_json):
                     for k in sp.keys()}}
 
 
-def conv_record(rec_id, kind, name, space_json, st_json, rep=None, gym_space=None):
+def encoding_table(kind, name, space_json, rep):
+    """the code's encoding of every object of the space, read through the public convert(): a member whose
+    cells all hold the object (and which holds it, when it can be held)"""
+    h, w = space_json['shape']
+    mk = proj.state_from_json if kind == 'state' else proj.obs_from_json
+    objs = objects_of(space_json['types'], space_json['colors']) + ([proj.HIDDEN] if kind == 'observation' else [])
+    table = []
+    for o in objs:
+        holdable = o['t'] != 'Hidden'
+        st = {'grid': [[o for _ in range(w)] for _ in range(h)], 'pos': [h - 1, w // 2], 'ori': 'F', 'item': o if holdable else proj.NONE_OBJ}
+        conv = rep.convert(mk(st))
+        table.append([o, [int(x) for x in conv['grid'][0][0]]])
+    st = {'grid': [[objs[0] for _ in range(w)] for _ in range(h)], 'pos': [h - 1, w // 2], 'ori': 'F', 'item': proj.NONE_OBJ}
+    table.append([proj.NONE_OBJ, [int(x) for x in rep.convert(mk(st))['item']]])
+    return table
+
+
+def conv_record(rec_id, kind, name, space_json, st_json, rep=None, gym_space=None, table=None):
     rep = rep or make_rep(kind, name, space_json)
     sp = rep.space
     gym_space = gym_space or outer_space_to_gym_space(sp)
     obj = proj.state_from_json(st_json) if kind == 'state' else proj.obs_from_json(st_json)
     rec = {'id': rec_id, 'kind': 'conv', 'kind_': kind, 'name': name, 'space': space_json, 'st': st_json, 'outcome': 'ok',
-           'conv': {}, 'dtypes': {}, 'contains': {}, 'gymcontains': {}, 'agent_exact': True,
+           'conv': {}, 'dtypes': {}, 'contains': {}, 'gymcontains': {}, 'agent_exact': True, 'table': table if table is not None else [],
            'spaces': {k: {'lo': tolist(v.lower_bound.astype(int)), 'hi': tolist(v.upper_bound.astype(int))} for k, v in sp.items() if k != 'agent'}}
     try:
         conv = rep.convert(obj)
@@ -169,12 +186,12 @@ def _worker(args):
             if kind != 'space':
                 if key not in cache:
                     rep = make_rep(job['kind'], job['name'], job['space_json'])
-                    cache[key] = (rep, outer_space_to_gym_space(rep.space))
-                rep, gs = cache[key]
+                    cache[key] = (rep, outer_space_to_gym_space(rep.space), encoding_table(job['kind'], job['name'], job['space_json'], rep))
+                rep, gs, tab = cache[key]
             if kind == 'space':
                 rec = space_record(**job)
             elif kind == 'conv':
-                rec = conv_record(rep=rep, gym_space=gs, **job)
+                rec = conv_record(rep=rep, gym_space=gs, table=tab, **job)
                 distinct.add(hash(json.dumps(rec['conv'], sort_keys=True)))
             else:
                 rec = pair_record(rep=rep, **job)
